@@ -20,6 +20,8 @@ class Macro:
         self.label = False
         self.posmark = False
         self.call_first = False  # the body begins with its first nested call (no op of its own before it)
+        self.tail = None  # None | "return" | "end" | "hold": the body's last statement
+        self.label_only = False  # the body is a label and nothing else (an expansion that emits no op)
         self.arg_plan: list[list[str]] = []  # per call: argument texts
 
 
@@ -34,6 +36,8 @@ class Lib:
         """Text of macro m; `variant` changes only the opcode tags (used for shadowing worlds / edits)."""
         t = f"t_{m.name}_{variant}"
         lines = [f"macro {m.name}({', '.join(m.params)}) {{"]
+        if m.label_only:
+            return "\n".join(lines + ["    @again;", "}"])
         if not (m.call_first and m.callees):
             lines.append(f"    {t}_0({', '.join(m.params)});")
         if m.posmark and not (m.call_first and m.callees):
@@ -44,19 +48,31 @@ class Lib:
             lines.append("        return;")
             lines.append("    }")
         if m.label and not (m.call_first and m.callees):
-            lines.append(f"    @inner_{m.name};")
+            # the same label name in every macro: labels are private to a macro (and to each of its expansions)
+            lines.append(f"    @again;")
             lines.append(f"    {t}_l();")
-            lines.append(f"    if ($LOOP_{m.name} < 3) {{ jump @inner_{m.name}; }}")
+            lines.append(f"    if ($LOOP_{m.name} < 3) {{ jump @again; }}")
         for i, (callee, args) in enumerate(zip(m.callees, m.arg_plan)):
             lines.append(f"    ~{callee}({', '.join(args)});")
             lines.append(f"    {t}_{i + 1}();")
+        if m.tail:
+            lines.append(f"    {m.tail};")
         lines.append("}")
         return "\n".join(lines)
 
     def main_body(self) -> str:
         lines = ["def 0 {", "    main_0();"]
         for i, (name, args) in enumerate(self.main_calls):
-            lines.append(f"    ~{name}({', '.join(args)});")
+            wrap = self.main_wrap[i] if i < len(getattr(self, "main_wrap", [])) else None
+            if wrap == "else":
+                lines += [f"    if ($W{i} == 1) {{", f"        main_then_{i}();", "    } else {", f"        ~{name}({', '.join(args)});", "    }"]
+            elif wrap == "ifnot":
+                lines += [f"    if not ($W{i} == 1) {{", f"        ~{name}({', '.join(args)});", "    }"]
+            elif wrap == "case":
+                lines += [f"    switch ($W{i}) {{", "        case 1:", f"            ~{name}({', '.join(args)});", "            break;", "        default:",
+                          f"            main_default_{i}();", "    }"]
+            else:
+                lines.append(f"    ~{name}({', '.join(args)});")
             lines.append(f"    main_{i + 1}();")
         lines += ["    end;", "}"]
         return "\n".join(lines)
@@ -152,6 +168,8 @@ def gen_lib(rng: random.Random, shape: str | None = None, n: int | None = None) 
         m.label = rng.random() < 0.15
         m.posmark = rng.random() < 0.2
         m.call_first = rng.random() < 0.3
+        m.tail = rng.choice([None, None, None, "return", "end", "hold"])
+        m.label_only = (not edges[nm]) and rng.random() < 0.12
         lib.macros[nm] = m
     for m in lib.macros.values():
         m.arg_plan = [_args(rng, len(lib.macros[c].params) + (1 if rng.random() < 0.1 else 0), m.params, lib.macros[c].early_return)
@@ -164,10 +182,11 @@ def gen_lib(rng: random.Random, shape: str | None = None, n: int | None = None) 
     calls += rng.sample(names, rng.randint(0, min(2, len(names))))
     rng.shuffle(calls)
     lib.main_calls = [(nm, _args(rng, len(lib.macros[nm].params), [], lib.macros[nm].early_return)) for nm in calls]
+    lib.main_wrap = [rng.choice([None, None, "else", "ifnot", "case"]) for _ in calls]
     return lib
 
 
-def inlined_source(lib: Lib, variants: dict[str, str] | None = None) -> str:
+def inlined_source(lib: Lib, variants: dict[str, str] | None = None, starts: list | None = None) -> str:
     """The program the property compares with: no macros at all, every call replaced by the macro's body with the
     parameters substituted by the call's arguments, `return` leaving only the macro (a jump to a label placed right
     after the expansion) and the body's labels private to each expansion (renamed per expansion). Written from the
@@ -186,6 +205,9 @@ def inlined_source(lib: Lib, variants: dict[str, str] | None = None) -> str:
 
         t = f"t_{m.name}_{variants.get(m.name, 'a')}"
         out = []
+        if m.label_only:
+            return [f"{ind}@again_{k};", f"{ind}@ret_{k};"]
+        out.append("#START")
         first_call = m.call_first and m.callees
         if not first_call:
             out.append(f"{ind}{t}_0({', '.join(sub(p) for p in m.params)});")
@@ -194,19 +216,54 @@ def inlined_source(lib: Lib, variants: dict[str, str] | None = None) -> str:
         if m.early_return and m.params and not first_call:
             out += [f"{ind}if ({sub(m.params[0])} == 1) {{", f"{ind}    {t}_r();", f"{ind}    jump @ret_{k};", f"{ind}}}"]
         if m.label and not first_call:
-            out += [f"{ind}@inner_{m.name}_{k};", f"{ind}{t}_l();", f"{ind}if ($LOOP_{m.name} < 3) {{ jump @inner_{m.name}_{k}; }}"]
+            out += [f"{ind}@again_{k};", f"{ind}{t}_l();", f"{ind}if ($LOOP_{m.name} < 3) {{ jump @again_{k}; }}"]
         for i, (callee, cargs) in enumerate(zip(m.callees, m.arg_plan)):
             out += expand(callee, [sub(a) for a in cargs], ind)
             out.append(f"{ind}{t}_{i + 1}();")
+        if m.tail == "return":
+            out.append(f"{ind}jump @ret_{k};")
+        elif m.tail:
+            out.append(f"{ind}{m.tail};")
         out.append(f"{ind}@ret_{k};")
         return out
 
     lines = ["def 0 {", "    main_0();"]
     for i, (name, args) in enumerate(lib.main_calls):
-        lines += expand(name, list(args), "    ")
+        wrap = lib.main_wrap[i] if i < len(getattr(lib, "main_wrap", [])) else None
+        if wrap == "else":
+            lines += [f"    if ($W{i} == 1) {{", f"        main_then_{i}();", "    } else {"] + expand(name, list(args), "        ") + ["    }"]
+        elif wrap == "ifnot":
+            lines += [f"    if not ($W{i} == 1) {{"] + expand(name, list(args), "        ") + ["    }"]
+        elif wrap == "case":
+            lines += [f"    switch ($W{i}) {{", "        case 1:"] + expand(name, list(args), "            ") + ["            break;", "        default:",
+                      f"            main_default_{i}();", "    }"]
+        else:
+            lines += expand(name, list(args), "    ")
         lines.append(f"    main_{i + 1}();")
     lines += ["    end;", "}"]
-    return "\n".join(lines) + "\n"
+    if starts is not None:
+        import re
+
+        pending = False
+        for ln in lines:
+            if ln == "#START":
+                pending = True
+                continue
+            mt = re.match(r"\s*t_(\w+)\(", ln)
+            if mt and pending:
+                macro, _variant, n = mt.group(1).rsplit("_", 2)
+                starts.append((macro, n))
+            if not ln.strip().startswith("@"):
+                pending = False
+    return "\n".join(ln for ln in lines if ln != "#START") + "\n"
+
+
+def expansion_starts(lib: Lib) -> list[tuple[str, str]]:
+    """(macro, op suffix) of the first op of every expansion that emits an op, in textual order; nested expansions that
+    begin with the same op count once."""
+    starts: list = []
+    inlined_source(lib, starts=starts)
+    return starts
 
 
 def single_file_source(lib: Lib, order: list[str], variants: dict[str, str] | None = None, only: set[str] | None = None) -> str:
@@ -218,7 +275,7 @@ def single_file_source(lib: Lib, order: list[str], variants: dict[str, str] | No
 
 # ---- worlds --------------------------------------------------------------------------------------
 
-DIRS = ["/proj/macros/v:1", "/proj/SCRIPT", "/proj/SCRIPT/lib", "/proj/macros", "/proj/macros/sub", "/opt/shared", "/opt/shared/deep", "/opt/shared/deep/er", "/opt/shared/deep/er"]
+DIRS = ["/proj/macros/v:1", "/proj/SCRIPT", "/proj/SCRIPT_common", "/proj/SCRIPT_common", "/proj/SCRIPT/lib", "/proj/macros", "/proj/macros/sub", "/opt/shared", "/opt/shared/deep", "/opt/shared/deep/er", "/opt/shared/deep/er"]
 
 
 class World:
